@@ -314,6 +314,12 @@ class TaskMappingSpec(native_v1_specs.MappingSpec):
             if next_task_name in traversed:
                 continue
 
+            # A transition may name a task that is not defined. This is reported by the
+            # inspection of undefined tasks and there is nothing to follow from here.
+            if not self.has_task(next_task_name):
+                traversed.append(next_task_name)
+                continue
+
             for task in self.get_next_tasks(next_task_name):
                 q.put(task[0])
 
